@@ -183,8 +183,10 @@ impl Prop for C02 {
                         let size: u32 = *rng.pick(&[0u32, 11, 12, 13, 64, 8192, 65535, 65536, u32::MAX]);
                         b[4..8].copy_from_slice(&size.to_le_bytes());
                     }
-                    // never let the real code allocate gigabytes: a limit is always configured
-                    lim.max_msg = *rng.pick(&[1usize, 12, 64, 8192, 65535]);
+                    // never let the real code allocate gigabytes: a limit is configured unless the declared size
+                    // (as it stands in the bytes) is small; 0 = unlimited is part of the contract too
+                    let declared = if b.len() >= 8 { u32::from_le_bytes([b[4], b[5], b[6], b[7]]) } else { 0 };
+                    lim.max_msg = if declared <= 65536 && rng.chance(1, 3) { 0 } else { *rng.pick(&[1usize, 12, 64, 8192, 65535]) };
                 }
                 out.push(format!("dec {} {} x{}", ty, lim.show(), hex(&b)));
             }
@@ -334,6 +336,19 @@ impl Prop for C02 {
                         out.push(format!("sdec {} {} x{}", name, Lim::default().show(), hex(&p)));
                     }
                 }
+            }
+            // first-byte sweeps: every mask / type byte of DataValue, DiagnosticInfo, LocalizedText, NodeId,
+            // ExpandedNodeId and the ExtensionObject body (6 x 256 points, one per case)
+            {
+                let (ty, b) = byte_sweep(case);
+                out.push(format!("dec {} {} x{}", ty, Lim::default().show(), hex(&b)));
+            }
+            // length-field sweep: 8 length-bearing leaves x 12 declared lengths (-2, -1, 0, 1, i32::MIN, i32::MIN+1,
+            // i32::MAX, limit-1, limit, limit+1, limit+2, 3) under small limits
+            {
+                let lim = Lim { max_str: 2 + (case % 3), max_bytes: 2 + (case % 4), max_arr: 2 + (case % 2), max_depth: 10, max_msg: 0, named: 0 };
+                let (ty, b) = length_sweep(case, &lim);
+                out.push(format!("dec {} {} x{}", ty, lim.show(), hex(&b)));
             }
             // (iii) nesting families
             {
